@@ -51,6 +51,7 @@ class TapeRecorder(object):
         self._random = Random(random_seed)
         self._force_sample = False
         self._thread_locals = threading.local()
+        self._finalization_lock = threading.Lock()
 
     @contextmanager
     def start_recording(self, category, metadata, post_operation_metadata_extractor=None):
@@ -78,16 +79,12 @@ class TapeRecorder(object):
             metadata[TapeRecorder.EXCEPTION_IN_OPERATION] = True
             raise
         finally:
+            # Take the recording out of the recorder (clears the active state, so it is not left active if we have some
+            # exception raised in following code), a concurrent discard from another thread gets it or we do, never both
+            recording, recording_parameters, force_sample = self._detach_active_recording()
+
             # Recording was discarded
-            if self._active_recording is not None:
-                recording = self._active_recording
-                force_sample = self.is_recording_sample_forced
-                recording_parameters = self._active_recording_parameters
-
-                # Clear recording not to leave recording in active state if we have
-                # some exception raised in following code
-                self._reset_active_recording()
-
+            if recording is not None:
                 if not self._should_sample_active_recording(recording, recording_parameters, force_sample):
                     self.tape_cassette.abort_recording(recording)
                 else:
@@ -107,13 +104,27 @@ class TapeRecorder(object):
         """
         Discards currently active recording process
         """
-        # Use a local reference, the recording may be discarded by another thread at the same time
-        recording = self._active_recording
+        # The recording may be discarded or finalized by another thread at the same time, only one of them gets it
+        recording, __, __ = self._detach_active_recording()
         if recording is not None:
             _logger.info(
                 u'Recording with id {} was discarded'.format(recording.id))
             self.tape_cassette.abort_recording(recording)
-            self._reset_active_recording()
+
+    def _detach_active_recording(self):
+        """
+        Atomically takes the active recording (if there is one) out of the recorder, resetting the recorder state, so
+        exactly one of the racing parties (end of the operation, a discard from any thread) gets to finalize it
+        :return: Active recording (or None), its recording parameters and whether its sampling was enforced
+        :rtype: (playback.recording.Recording, RecordingParameters, bool)
+        """
+        with self._finalization_lock:
+            recording = self._active_recording
+            recording_parameters = self._active_recording_parameters
+            force_sample = self._force_sample
+            if recording is not None:
+                self._reset_active_recording()
+        return recording, recording_parameters, force_sample
 
     def force_sample_recording(self):
         """
